@@ -2,7 +2,7 @@
 """Common machinery for the /verif checks: scratch space, building lbzip2 from the
 current /repo working tree with the hooks on, running it, running TLC, validating
 recorded traces against the TLA+ trace specifications, writing evidence."""
-import atexit, hashlib, json, os, random, re, shutil, signal, subprocess, sys, tempfile, time
+import atexit, hashlib, json, os, random, re, shutil, signal, subprocess, sys, tempfile, threading, time
 from concurrent.futures import ThreadPoolExecutor
 
 VERIF = os.path.dirname(os.path.dirname(os.path.abspath(__file__)))
@@ -28,6 +28,13 @@ def scratch():
     if _scratch is None:
         base = os.environ.get("VERIF_SCRATCH", "/var/tmp")
         os.makedirs(base, exist_ok=True)
+        for n in os.listdir(base):            # scratch of checks that were killed long ago
+            p = os.path.join(base, n)
+            try:
+                if n.startswith("verif.") and time.time() - os.stat(p).st_mtime > 6 * 3600:
+                    shutil.rmtree(p, ignore_errors=True)
+            except OSError:
+                pass
         _scratch = tempfile.mkdtemp(prefix="verif.", dir=base)
         atexit.register(lambda: shutil.rmtree(_scratch, ignore_errors=True))
     return _scratch
@@ -113,7 +120,29 @@ class Run:
         return -self.rc if self.rc is not None and self.rc < 0 else 0
 
 
-def run(argv, stdin=b"", env=None, timeout=60, cwd=None, stdin_file=None, stdout_file=None, ignore_pipe=False, preexec=None):
+_sigreset = [None]
+_sigreset_lock = threading.Lock()
+
+
+def sigreset():
+    """path of the launcher that gives the program under test a defined signal environment"""
+    with _sigreset_lock:
+        if _sigreset[0] is None:
+            exe = os.path.join(subdir("harness"), "sigreset")
+            rc, err = _cc(["gcc", "-O1", "-o", exe + ".tmp", os.path.join(VERIF, "harness", "sigreset.c")])
+            if rc != 0:
+                raise Infra("sigreset build failed: " + err[-1000:])
+            os.rename(exe + ".tmp", exe)
+            _sigreset[0] = exe
+    return _sigreset[0]
+
+
+def launch_prefix(ignore_pipe=False, fsize=None):
+    return [sigreset()] + (["-i"] if ignore_pipe else []) + (["-f", str(fsize)] if fsize is not None else [])
+
+
+def run(argv, stdin=b"", env=None, timeout=60, cwd=None, stdin_file=None, stdout_file=None, ignore_pipe=False, fsize=None):
+    argv = launch_prefix(ignore_pipe, fsize) + list(argv)
     e = dict(os.environ)
     for k in list(e):
         if k.startswith("VERIF_") and k not in ("VERIF_SCRATCH",):
@@ -128,8 +157,7 @@ def run(argv, stdin=b"", env=None, timeout=60, cwd=None, stdin_file=None, stdout
     try:
         p = subprocess.Popen(argv, stdin=fin if fin else subprocess.PIPE,
                              stdout=fout if fout else subprocess.PIPE, stderr=subprocess.PIPE,
-                             env=e, cwd=cwd, start_new_session=True, restore_signals=not ignore_pipe,
-                             preexec_fn=preexec)
+                             env=e, cwd=cwd, start_new_session=True)
         try:
             out, err = p.communicate(None if fin else stdin, timeout=timeout)
             to = False
@@ -409,4 +437,8 @@ def main_wrapper(pid, level, fn):
         rc = rep.finish(infra=e)
     except subprocess.CalledProcessError as e:
         rc = rep.finish(infra=e)
+    except Exception as e:                     # a bug in the checker is not a verdict about lbzip2
+        import traceback
+        traceback.print_exc()
+        rc = rep.finish(infra=Infra("checker error: %r" % (e,)))
     sys.exit(rc)
